@@ -10,7 +10,8 @@ RULE = ("(a) PARSETOKS: every token sequence of length <= 2 (quick) / 3 (thoroug
         "and double token deletions, duplications, swaps and insertions. The implementation must answer with a statement "
         "list or an error value (never a panic, abort or hang); valid programs must be accepted; the answer (AST on "
         "success, error class otherwise) is compared with the Lean model. Non-trivial: the sequence is not accepted."
-        ' Number-neighbourhood sources of C10 as PARSE requests; import graphs with the root file on disk.')
+        ' Number-neighbourhood sources of C10 as PARSE requests; import graphs with the root file on disk.'
+        ' Same-alias import graphs and root cycles entered by a later import.')
 ASSUMPTIONS = ["token lists end with the end-of-tokens marker, as every tokenizer output does",
                "native stack depth is not modelled (KNOWN-FINDING C12-native-stack is probed on every run)"]
 CODES = "nsiIELVF+-*/%@;m#,(){}[]=<>qxlg&|!tfBCRPMp"
@@ -161,10 +162,13 @@ def cases(rng, tier, stats):
             graphs.append((n_, edges + [(0, n_ - 1)]))                      # … plus a shortcut (diamond into the cycle)
     graphs += [(4, [(0, 1), (0, 2), (1, 3), (2, 3)]), (5, [(0, 1), (0, 2), (1, 3), (2, 3), (3, 4), (0, 4)]),
                (4, [(0, 1), (1, 2), (2, 3), (3, 1), (0, 3)]), (5, [(0, 1), (1, 2), (2, 3), (3, 4), (4, 2), (1, 4)])]
+    # cycles that do pass through the root, entered by its second / third import
+    graphs += [(3, [(0, 1), (0, 2), (2, 0)]), (4, [(0, 1), (0, 2), (0, 3), (3, 0)]), (3, [(0, 1), (0, 2), (1, 2), (2, 1)]), (4, [(0, 1), (0, 2), (2, 3), (3, 0)])]
     ng = 0
     for (n_, edges) in graphs:
         for desc in (False, True):
             out.append(L.graph_case("parse-module-graph", n_, edges, desc)); ng += 1
+            out.append(L.graph_case("parse-module-graph", n_, edges, desc, same_alias=True)); ng += 1     # two modules under one alias
     stats["module_graphs"] = ng
     return out
 
